@@ -56,7 +56,8 @@ def _on_timer(signum, frame):
 class Res:
     """Result of one case."""
     __slots__ = ('nontrivial', 'outcome', 'violations', 'counters',
-                 'states', 'transitions', 'traces', 'evals')
+                 'states', 'transitions', 'traces', 'evals', 'nt_count',
+                 'sample')
 
     def __init__(self, nontrivial=False, outcome='ok'):
         self.nontrivial = nontrivial
@@ -67,6 +68,10 @@ class Res:
         self.transitions = 0
         self.traces = 0
         self.evals = 1
+        # a case that bundles many sub-cases (distinct by construction)
+        # reports how many of them were non-trivial
+        self.nt_count = None
+        self.sample = None
 
     def violate(self, clause, sig, detail=None, case=None):
         self.violations.append(
@@ -101,7 +106,8 @@ def _hash64(s):
 def run_one(driver, case):
     """Run one case under the CPU watchdog; CaseTimeout that escapes the
     driver becomes a violation (no property tolerates a hang)."""
-    signal.setitimer(signal.ITIMER_VIRTUAL, CASE_CPU_SECONDS)
+    budget = getattr(driver, 'CASE_CPU_SECONDS', CASE_CPU_SECONDS)
+    signal.setitimer(signal.ITIMER_VIRTUAL, budget)
     try:
         try:
             res = driver.run(case)
@@ -110,7 +116,7 @@ def run_one(driver, case):
     except CaseTimeout:
         res = Res(nontrivial=True, outcome='timeout')
         res.violate('termination', 'timeout',
-                    'case exceeded %.1fs CPU' % CASE_CPU_SECONDS)
+                    'case exceeded %.1fs CPU' % budget)
     return res
 
 
@@ -140,7 +146,13 @@ def _worker(args):
             agg['states'] += res.states
             agg['transitions'] += res.transitions
             agg['traces'] += res.traces
-            if res.nontrivial:
+            if res.nt_count is not None:
+                agg['nontrivial'] += res.nt_count
+                agg['distinct_overflow'] += res.nt_count
+                if res.nt_count and len(agg['samples']) < 2:
+                    agg['samples'].append(res.sample if res.sample is not None
+                                          else case)
+            elif res.nontrivial:
                 agg['nontrivial'] += 1
                 if len(agg['distinct']) < DISTINCT_CAP_PER_WORKER:
                     agg['distinct'].add(_hash64(case_key(case)))
